@@ -736,7 +736,7 @@ def rule_union_members_kept(repo: Repo, rep, rule: str = "R2.13") -> None:
                 n += 1
                 dom = {f"{var}.{a}": STRUCT.get(a, [False, True]) for a in attrs}
                 for a in STRUCT:
-                    dom.setdefault(f"{var}.{a}", STRUCT[a][:1])
+                    dom.setdefault(f"{var}.{a}", STRUCT[a])  # also the structural attributes the filter does not read
                 cond = ast.BoolOp(op=ast.And(), values=list(comp.generators[0].ifs)) if len(comp.generators[0].ifs) > 1 else comp.generators[0].ifs[0]
                 bad = None
                 try:
